@@ -63,7 +63,7 @@ impl Round for Decimal {
             } else {
                 // shift back
                 Self {
-                    coeff: coeff * ten_pow(-n_frac_digits as u8),
+                    coeff: mul_pow_ten(coeff, -n_frac_digits as u8),
                     n_frac_digits: 0,
                 }
             }
